@@ -165,8 +165,57 @@ def main12(tag, outdir):
         open(os.path.join(outdir, aid + ".txt"), "w").write(out)
         print(aid, len(out), len(used))
 
+# wave 13: by ACCOUNT TYPE / cross-cutting concern (how a kind of state is created, sized, read, written back, closed)
+CONCERNS13 = [
+ ("F01", "the Whirlpool account: how it is created and initialised (all three pool initialisers), its extension segments / control flags, the reward_infos array layout, and every place that writes it back (Anchor exit, Pinocchio memory-mapped view)"),
+ ("F02", "the Position account: creation (all open_* instructions incl. bundled), its checkpoints and owed amounts, reset, close, and both its Anchor and Pinocchio memory-mapped views"),
+ ("F03", "the FixedTickArray account: zero-copy layout, loaders (Anchor `load_tick_array_mut`, sparse-swap loading, Pinocchio view), initialisation, and the zeroed / uninitialised-array proxies used by swaps"),
+ ("F04", "the DynamicTickArray account: variable-length encoding, bitmap, resize and rent top-up / hand-back, initialisation (incl. idempotent mode), Anchor and Pinocchio codecs"),
+ ("F05", "the Oracle account: creation with the pool, PDA derivation, `OracleAccessor` (load / load_mut, the 'no oracle' case), constants vs variables, trade-enable timestamp"),
+ ("F06", "the FeeTier and AdaptiveFeeTier accounts: creation, their fields' bounds, which pool parameters are copied from them at pool creation, and the authorities stored in AdaptiveFeeTier"),
+ ("F07", "the WhirlpoolsConfig and WhirlpoolsConfigExtension accounts: creation, authorities, feature flags, and every `has_one` / `address =` that ties another account to a config"),
+ ("F08", "token vaults and reward vaults: how they are created (PDA / keypair, authority = pool), which constraint ties each to its pool and mint / reward index, and how transfers out of them are signed"),
+ ("F09", "position NFTs: the position mint, its token account and metadata (SPL and Token-2022 variants): supply, mint / freeze authority, extensions, burn and close at close_position*, and the bundle NFT"),
+ ("F10", "PositionBundle and LockConfig accounts: creation, bitmap, deletion; lock records, their link to position and owner, transfer of locked positions"),
+ ("F11", "TokenBadge accounts and the admission check of mints (`is_supported_token_mint`, token-badge attributes) at pool and reward creation"),
+ ("F12", "events: the Anchor `emit!` events and the Pinocchio-encoded events of swaps and liquidity instructions - which values are put into which field, before/after amounts, transfer-fee fields"),
+ ("F13", "lamports and rent: who funds account creation, where rent goes when accounts are closed or shrunk, rent-exemption checks on resize, position / tick-array rent hand-back"),
+ ("F14", "clock and timestamps: every use of `Clock::get()` - reward clock, oracle timestamps, lock timestamp, trade-enable time - and conversions between i64 / u64 / u32 time values"),
+ ("F15", "remaining accounts: supplemental tick arrays of swaps and two-hop swaps, transfer-hook account slices, their parsing and how they are handed on (Anchor side)"),
+ ("F16", "token transfer plumbing: `transfer_from_owner_to_vault(_v2)`, `transfer_from_vault_to_owner(_v2)`, memo handling, transfer-fee lookup per epoch, Pinocchio CPI builders for Token / Token-2022 / Memo"),
+ ("F17", "integer width and sign conversions across the program: u128/u64/i128/i32 casts, `as` conversions, checked vs wrapping arithmetic in managers and state methods (not in the math core files token_math.rs / swap_math.rs / tick_math.rs)"),
+ ("F18", "the instruction dispatcher and argument decoding: lib.rs wrappers, entrypoint.rs Pinocchio routing, instruction-data parsing in the Pinocchio handlers (argument order, optional arguments, defaults)"),
+ ("F19", "rust-sdk/core facades and conversions: TickArrayFacade / TickFacade / OracleFacade / WhirlpoolFacade fields, tick-array sequence construction, conversion of on-chain fields into the quote functions' inputs"),
+ ("F20", "rust-sdk/core slippage, price-limit and bound helpers used by the quotes: try_get_min_amount_with_slippage_tolerance / max, sqrt-price slippage bounds, default limits, U128/u64 narrowing"),
+]
+
+def main13(tag, outdir):
+    os.makedirs(outdir, exist_ok=True)
+    root = os.path.dirname(os.path.dirname(os.path.abspath(__file__)))
+    brief = open(os.path.join(root, "notes/SEED_BRIEF.md")).read().split("\n---\n", 1)[1]
+    props = [json.loads(l) for l in open(os.path.join(root, "properties.jsonl"))]
+    plist = "\n".join(f"* {p['id']} — {p['title']}. {p['statement']}" for p in props)
+    for aid, concern in CONCERNS13:
+        d = f"/tmp/{tag}_{aid}"
+        text = ("This time you are not given one property but a KIND OF STATE or cross-cutting concern. The repository is expected to satisfy "
+                "all of the following properties (each must hold for every input, history and configuration):\n\n" + plist +
+                "\n\nYour assigned concern:\n  - " + concern +
+                "\n\nRead how the code handles it everywhere (Anchor and Pinocchio sides, every instruction that touches it), then make a "
+                "change in that handling after which one of the properties above breaks. Pick whichever property your change breaks, and "
+                "say which one in meta.json (\"property\": \"Cxx\").")
+        out = (brief.replace("{dir}", d).replace("{property}", text).replace("{used}", "(about two hundred earlier changes exist; most sit in the arithmetic core, the swap loop, the liquidity handlers' checks and the account constraints of the common instructions - prefer a place none of those would have touched)")
+               .replace("{steer}", "Strongly preferred: a change in PLUMBING that a reviewer would wave through - a field written back from the wrong copy, a length or offset computed for the "
+                        "other encoding, a value captured before instead of after an update, an account re-used across two roles - and whose effect needs a particular "
+                        "history or configuration to be seen.")
+               .replace("{id}", "Cxx"))
+        out = out.replace("Earlier changes written against this property are listed here", "Earlier changes")
+        open(os.path.join(outdir, aid + ".txt"), "w").write(out)
+        print(aid, len(out))
+
 def main():
     tag, outdir = sys.argv[1], sys.argv[2]
+    if tag.startswith("seed13"):
+        return main13(tag, outdir)
     if tag.startswith("seed11"):
         return main11(tag, outdir)
     if tag.startswith("seed12"):
